@@ -871,7 +871,7 @@ func Prop() *core.Prop {
 		},
 		Cases: func(tier string) int {
 			if tier == "thorough" {
-				return 30000
+				return 150000
 			}
 			return 400
 		},
